@@ -316,6 +316,7 @@ func mapOfSeries(ss ...*ref.Series) *gostatsd.MetricMap {
 type checker struct {
 	r             *mon.Run
 	serverSampled bool
+	serverMissing int // cases in which an expected series never reached the backend (reproduced)
 }
 
 func hasDup(sorted []string) bool {
